@@ -9,7 +9,9 @@
 (*   [t |-> id, truth |-> "ELF".."SREC" | "none" | "any", ev |-> <<events>>]*)
 (* events  [a, f, e, cur]:                                                  *)
 (*   a = "reject"  stage f caught exception type e, cursor then at cur      *)
-(*   a = "accept"  f's constructor returned (f from the type of the result) *)
+(*   a = "accept"  f's constructor returned (f from the type of the result); *)
+(*                 h = first 4 bytes of the input, g = the 4 bytes at        *)
+(*                 e_lfanew if it starts with "MZ" (else <<>>)               *)
 (*   a = "raw"     the raw fallback object was returned                     *)
 (*   a = "raise"   exception type e left read_program                       *)
 (*   a = "timeout" | "exhaust" | "killed"   CPU-time limit hit / MemoryError*)
@@ -70,7 +72,8 @@ TStep ==
                /\ pv' = MarkAll(pv, << <<"accept" \notin Outcomes(f, truth, st.cur, {}), "Misclaim:" \o f \o " claimed a valid " \o truth>>,
                                        <<~NoMisclaim(nx, truth), "Misclaim:" \o f \o " returned for a valid " \o truth>>,
                                        <<f \in Stream /\ st.cur # 0, "AcceptFromSuffix:" \o f>> >>)
-               /\ dv' = Mark(dv, f # Expected, "Order:" \o f \o " accepted where " \o Expected \o " is due")
+               /\ dv' = MarkAll(dv, << <<f # Expected, "Order:" \o f \o " accepted where " \o Expected \o " is due">>,
+                                       <<"h" \in DOMAIN e /\ ~MagicOK(f, e.h, e.g), "AcceptWithoutMagic:" \o f>> >>)
        [] e.a = "raw" ->
             LET nx == RawStep(st) IN
             /\ st' = nx
